@@ -5,13 +5,14 @@
 import SpVerif.Drive.Naming
 open Lean SpVerif.Drive
 
+/-- every op of every per-property driver module: add `++ <module>Ops` here -/
+def allOps : List (String × (Json → R Json)) :=
+  namingOps
+
 def dispatch (op : String) (c : Json) : R Json :=
-  match op with
-  | "naming" => opNaming c
-  | "bool.neg" => opBoolNeg c
-  | "bool.run" => opBoolRun c
-  | "str2bool" => opStr2bool c
-  | _ => .error s!"unknown op {op}"
+  match allOps.lookup op with
+  | some f => f c
+  | none => .error s!"unknown op {op}"
 
 def handleLine (line : String) : String :=
   match Json.parse line with
